@@ -155,6 +155,25 @@ def layoutGo : List (Nat × Tx) → List Nat → Nat → List Slot
 
 def layout (cb : CB) : List Slot := layoutGo cb.prefilled cb.shortIds 0
 
+/-- The same loop with the `usize` subtraction `index - block_transactions.len()` made explicit:
+the gaps it computes, or `none` when the subtraction underflows (`index` below the number of
+transactions already pushed) — a panic in a build with overflow checks, a gap of almost 2^64
+swallowing every remaining short id otherwise.  `layoutGo` uses the truncated subtraction of
+`Nat`; the two agree whenever this function answers `some` (`Lemmas/Compact.lean`). -/
+def gapsChecked : List (Nat × Tx) → List Nat → Nat → Option (List Nat)
+  | [], _, _ => some []
+  | (idx, _) :: ps, sids, len =>
+    if idx < len then none
+    else
+      let gap := idx - len
+      (gapsChecked ps (sids.drop gap) (len + (sids.take gap).length + 1)).map (gap :: ·)
+
+/-- `PrefilledVerifier`'s order loop with `idx0 > idx1` in place of `idx0 >= idx1` (equal neighbours
+tolerated) — NOT the code; the variant `Props/C16.lean` shows to be unsafe -/
+def nondecreasing : List Nat → Bool
+  | a :: b :: rest => decide (a ≤ b) && nondecreasing (b :: rest)
+  | _ => true
+
 /-- `txs_map`: the first received transaction with that short id, else the pool's -/
 def txsMap (cb : CB) (received : List Tx) (pool : Nat → Option Tx) (sid : Nat) : Option Tx :=
   if cb.shortIds.contains sid then
